@@ -9,6 +9,7 @@
  * terminal (tcgetattr/ioctl fail, so rows/cols come from LINES/COLUMNS).
  */
 #include <stddef.h>
+#include <errno.h>
 #include <stdlib.h>
 #include <string.h>
 #include <sys/stat.h>
@@ -87,7 +88,7 @@ long env_clock = 1000;
 /* fault schedule: outcome of the k-th open/write/close/read call on a file descriptor > 2 */
 int env_fault_n;			/* number of scheduled outcomes */
 int env_fault_kind[ENV_NFAULT];		/* ENV_OK, ENV_FAIL, ENV_SHORT */
-int env_fault_arg[ENV_NFAULT];		/* ENV_SHORT: bytes to accept (1..n-1) */
+int env_fault_arg[ENV_NFAULT];		/* ENV_SHORT: bytes to accept (1..n-1); ENV_FAIL: errno (0: EIO) */
 int env_calls;				/* open/write/close calls on files so far */
 int env_faults_hit;			/* scheduled failures consumed */
 int env_shorts_hit;
@@ -161,6 +162,7 @@ int env_open(const char *path, int flags, ...)
 	int f = env_find(path), i, arg;
 	if (next_fault(&arg) == ENV_FAIL) {
 		env_faults_hit++;
+		errno = arg > 0 ? arg : EIO;
 		elog('O');
 		return -1;
 	}
@@ -205,6 +207,7 @@ int env_close(int fd)
 	env_fd[fd].used = 0;		/* the descriptor is gone either way */
 	if (next_fault(&arg) == ENV_FAIL) {
 		env_faults_hit++;
+		errno = arg > 0 ? arg : EIO;
 		elog('C');
 		return -1;
 	}
@@ -257,6 +260,7 @@ long env_write(int fd, const void *buf, size_t n)
 	kind = next_fault(&arg);
 	if (kind == ENV_FAIL) {
 		env_faults_hit++;
+		errno = arg > 0 ? arg : EIO;
 		elog('W');
 		return -1;
 	}
